@@ -75,6 +75,7 @@ func main() {
 		if err != nil {
 			fatal("%v", err)
 		}
+		warmUp()
 		w := obs.NewWriter(os.Args[3])
 		n, applied, skipped, calls := 0, 0, 0, 0
 		stoppedAt := -1
@@ -118,6 +119,7 @@ func main() {
 			Kind     string   `json:"kind"`
 		}
 		obs.ReadReplay(os.Args[2], &c)
+		warmUp()
 		fmt.Fprintf(os.Stderr, "SCHED %d\n", c.Schedule.ID)
 		ev, stuck := runSchedule(c.Schedule, watchdog)
 		fmt.Fprintf(os.Stderr, "SCHED end\n")
@@ -137,6 +139,15 @@ func main() {
 		selftest()
 	default:
 		fatal("unknown command %q", os.Args[1])
+	}
+}
+
+// warmUp runs one handshake per version before the first schedule: the first handshake of a process
+// is slow (one-time initialisations), which would distort the timing of the first schedule.
+func warmUp() {
+	fmt.Fprintf(os.Stderr, "SCHED warmup\n")
+	for _, v := range []string{"1.2", "1.3"} {
+		runSchedule(Schedule{ID: -1, Progs: [][]string{{"Handshake"}}, Ev: []SEvent{{T: "s", G: 1}}, Ver: v, Mode: "free"}, watchdog)
 	}
 }
 
